@@ -38,13 +38,13 @@ def run_property(pid, tier, seed, replay=None):
         # ---- 1. Coq
         ok_gen, gen_msg = X.regenerate_gen()
         log('translator:', gen_msg.replace('\n', ' | ')[:400])
-        cq = X.coq_property(pid)
+        cq = X.coq_property(pid, files=getattr(mod, 'PROPERTY_FILES', None))
         cov['obligations'] = len(cq['theorems']) + len(getattr(mod, 'COMPUTED_OBLIGATIONS', []))
         cov['discharged'] = len(cq['proved']) + (len(getattr(mod, 'COMPUTED_OBLIGATIONS', [])) if cq['proved'] else 0)
         cov['theorems'] = {t: cq['assumptions'].get(t, 'NOT PROVED') for t in cq['theorems']}
         cov['coq_build_s'] = cq.get('build_s')
         cov['theorem_notes'] = getattr(mod, 'THEOREM_NOTES', {})
-        log('coq: %d/%d theorems of Properties_%s.v check (%.0fs)' % (len(cq['proved']), len(cq['theorems']), pid, cq.get('build_s', 0)))
+        log('coq: %d/%d theorems of %s check (%.0fs)' % (len(cq['proved']), len(cq['theorems']), ', '.join(os.path.basename(f) for f in cq.get('files', [])), cq.get('build_s', 0)))
         proof_broken = None
         if cq['forbidden']:
             log('FORBIDDEN constructs found: %s' % cq['forbidden'][:5])
@@ -54,7 +54,7 @@ def run_property(pid, tier, seed, replay=None):
         if not ok_gen:
             proof_broken = {'kind': 'translator', 'detail': 'tools/cxx2gallina.py could not translate the current source: ' + gen_msg[-600:]}
         elif cq['failed']:
-            proof_broken = {'kind': 'proof-obligation', 'detail': 'Properties_%s.v no longer checks; first error: %s' % (pid, cq.get('first_error', '?')), 'theorems': cq['failed']}
+            proof_broken = {'kind': 'proof-obligation', 'detail': '%s no longer checks; first error: %s' % (', '.join(os.path.basename(f) for f in cq.get('files', [])), cq.get('first_error', '?')), 'theorems': cq['failed']}
 
         # ---- 2. builds
         specs = mod.harnesses(tier) if hasattr(mod, 'harnesses') else mod.HARNESSES
